@@ -44,7 +44,9 @@ def run(ck):
     quick = ck.tier == "quick"
     sizes = (200, 100, 100) if quick else (5000, 2500, 2500)
     on = jgen.neutral_corpus(ck.seed + 16, *sizes, auto=True)
+    on += jgen.fragment_cases(True, start_id=len(on) + 1)
     off = jgen.neutral_corpus(ck.seed + 16, *sizes, auto=False, start_id=len(on) + 1)
+    off += jgen.fragment_cases(False, start_id=len(on) + len(off) + 1)
     assert all(jrun.sources(a) == jrun.sources(b) for a, b in zip(on[:50], off[:50]))
     obs_on, r1 = jrun.spec_results("C16", on, name="on", timeout=3000)
     ck.add_tlc(r1, f"Jinja.tla autoescape on ({len(on)} programs), invariant C16_ExactlyOnce")
